@@ -561,7 +561,10 @@ where
                 last_invalid_withdrawal: None,
             });
 
-            let eor_capable = self.details.is_peer_eor_capable(&pph);
+            // The peer has just been removed from the table, so asking the
+            // table (`is_peer_eor_capable`) would always answer `None` and
+            // the EoR capable gauge would never be decremented.
+            let eor_capable = Some(removed_peer.eor_capable);
 
             // Don't announce this above as it will cause metric
             // underflow from 0 to MAX if there were no peers
